@@ -71,7 +71,7 @@ pub fn run_c07(args: &Args) -> i32 {
   );
   rep.assume("bounds (40 s each for match, delivery, unmatch) are measured in time during which the harness thread itself was being scheduled (steps of at most 100 ms), so a stalled machine cannot produce a verdict; typical waits are printed as counters");
   rep.assume("a KeepAll writer retains at least the last 32 samples for TransientLocal late joiners (the implementation's resource limit); more than that is not demanded");
-  rep.assume("'later samples' for a Volatile reader: a sample counts as earlier only with evidence: if the reader's participant hosts another reader of that writer (one shared TopicCache), that sibling had already taken the sample when create_datareader was called; otherwise some reader anywhere had taken it by then, or write() had returned more than 5 s before (write() only queues the sample for the participant's event loop); such a sample must not be delivered; anything else may or may not arrive");
+  rep.assume("'later samples' for a Volatile reader: a sample counts as earlier only with evidence: some reader anywhere had already taken it when create_datareader was called, or write() had returned more than 5 s before (write() only queues the sample for the participant's event loop); such a sample must not be delivered; anything else may or may not arrive");
   let ncases = args.scale(64, 3000);
   let acc = e2e_cases(args, ncases, 0x0707);
   rep.require("e2e_scenarios_completed", 20);
